@@ -99,7 +99,9 @@ def strategy(tier):
         st.fixed_dictionaries({'op': st.just('ack'), 'c': ci,
                                'args': st.lists(S.tree_st(max_leaves=2),
                                                 max_size=2)}),
+        # (j: which of the client's unanswered events - not only the oldest)
         st.fixed_dictionaries({'op': st.just('ack'), 'c': ci,
+                               'j': st.integers(0, 3),
                                'args': st.lists(S.tree_st(max_leaves=2),
                                                 max_size=2)}),
         st.fixed_dictionaries({'op': st.just('sdisc'), 'c': ci, 'via': hi}),
@@ -132,6 +134,13 @@ def _macro_st():
     client."""
     def build(t):
         via, c, then, room = t
+        if then == 'reverse_acks':
+            # two callback emits to one client, acknowledged newest first
+            cons = [{'op': 'consume', 'h': h, 'k': 1} for h in range(4)]
+            return ([{'op': 'emit_cb2', 'via': via, 'via2': via, 'c': c}] +
+                    cons * 2 + [{'op': 'ack', 'c': c, 'j': 1, 'args': [2]}] +
+                    cons + [{'op': 'ack', 'c': c, 'j': 0, 'args': [1]}] +
+                    cons)
         seq = [{'op': 'emit_cb', 'via': via, 'c': c}]
         seq += [{'op': 'consume', 'h': h, 'k': 1} for h in range(4)] * 2
         seq += [{'op': 'ack', 'c': c, 'args': [1]}]
@@ -144,7 +153,8 @@ def _macro_st():
         return seq
     return st.tuples(st.integers(0, 3), st.integers(0, 9),
                      st.sampled_from(['sdisc', 'sdisc', 'enter', 'leave',
-                                      'close_room']),
+                                      'close_room', 'reverse_acks',
+                                      'reverse_acks']),
                      st.integers(0, 2)).map(build)
 
 
@@ -535,7 +545,7 @@ def _run(case, cl, ref):
                         if i is not None and (ci, d[1]) not in pending_acks]
                 if not pend:
                     return
-                n, d, cid = pend[0]
+                n, d, cid = pend[op.get('j', 0) % len(pend)]
                 pending_acks[(ci, d[1])] = True
                 rid = [i for n2, d2, i in ref_received.get(ci, [])
                        if d2 == d]
